@@ -7,7 +7,10 @@ from extbase import ExtBase, geometry_case, torrent_doc, content_bytes, PATHS
 # under /tmp/rdvabs/<token>/ which the harness lists and removes.
 HOSTILE_REL = [b"../x", b"../../x", b"a/../../x", b"a/../../../b/x", b"..", b"./../x", b"a//../..//x",
                b"../../../../../x", b"d/../../e/x", b"..x", b"x..", b"a/..b/c", b"...", b"./x", b"a/./b", b"a//b",
-               b"", b".", b"a/", b"/", b"a\x00b", b"n/../m"]
+               b"", b".", b"a/", b"/", b"a\x00b", b"n/../m",
+               # strings that only become separators / parent components after some later transformation
+               b"..\\..\\x", b"..\\x", b"\\abs", b"a\\..\\..\\x", b"d\\e", b"%2e%2e/x", b"..%2fx", b"%2e%2e%2fx",
+               b".. /x", b" ../x", b"../x ", b"..;/x", b"a/..\\../x", b"~/x", b"$HOME/x", b"x:y", b"C:\\x"]
 
 
 class C04(ExtBase):
